@@ -213,6 +213,8 @@ def _env():
         return int(self.__dict__['_uid'][len('__JOB__'):])
 
     job_mod.Job.__hash__ = job_hash
+    # one ServiceBackend per process, as a user script would have (also keeps Backend.__del__ out of the runs)
+    env['backend'], env['fs'], env['client'] = _new_backend(env)
     _ENV = env
     return env
 
@@ -242,6 +244,8 @@ def _reset(env):
     env['tokens'].n = 0
     env['uuid'].n = 0
     env['transfers'].clear()
+    env['fs'].files.clear()
+    env['client'].batches.clear()
 
 
 # ----------------------------------------------------------------------------------------------
@@ -276,7 +280,7 @@ def build_and_run(prog):
     env = _env()
     hb = env['hb']
     _reset(env)
-    be, fs, client = _new_backend(env)
+    be, fs, client = env['backend'], env['fs'], env['client']
     b = hb.Batch(backend=be, name='c18')
     specs = prog['jobs']
     n = len(specs)
@@ -383,7 +387,9 @@ def build_and_run(prog):
     if sorted(rec) != list(range(n)):
         raise HarnessError(f'submitted jobs {sorted(rec)} != program jobs {list(range(n))}')
     bt = Built()
-    bt.rec, bt.fs, bt.templates, bt.pyargs, bt.transfers = rec, fs, templates, pyargs, list(env['transfers'])
+    bt.rec, bt.templates, bt.pyargs, bt.transfers = rec, templates, pyargs, list(env['transfers'])
+    bt.fs = FakeFS()
+    bt.fs.files = dict(fs.files)
     bt.all_jobs = client.batches[0].jobs
     return bt
 
@@ -452,13 +458,13 @@ def judge(prog, bt):
                 continue
             keys = [v for kind, v in bt.templates[k] if kind == 'ref']
             for key, text in zip(keys, got):
+                if key[0] == 'read' and key[1] == 'r2':
+                    stats['quoted'] += 1   # a reference whose path contains a space
                 word = _one_word(text, tmp[k])
                 if word is None:
                     bad('reference-not-one-quoted-word', f'job {k}: reference {key} was replaced by {text!r}, which the '
                         'shell does not read as exactly one word')
                     continue
-                if text != '${BATCH_TMPDIR}' + word[len(tmp[k]):]:
-                    stats['quoted'] += 1
                 subst[k][key] = word
         else:
             # python job: the arguments travel in a serialised file written by the client and downloaded by the job
@@ -492,20 +498,46 @@ def judge(prog, bt):
         if remote is not None:
             remote_written.setdefault(res, set()).add(remote)
 
-    def download_source(k, path, what):
+    def same_basename_group(urls):
+        """name of the input group whose members (with equal base names) these URLs are, else None"""
+        for g, members in INPUT_GROUPS.items():
+            if set(urls) <= set(members.values()) and len(set(urls)) > 1 \
+                    and len({u.rsplit('/', 1)[1] for u in urls}) == 1:
+                return g
+        return None
+
+    def download_source(k, path, what, stale_ok=False):
         """the unique source the consumer k downloads `path` from"""
-        srcs = [s for s, d in _files(bt.rec[k].kw.get('input_files')) if d == path]
+        ins = _files(bt.rec[k].kw.get('input_files'))
+        srcs = [s for s, d in ins if d == path]
         if len(srcs) == 0:
-            bad('consumer-path-not-downloaded', f'job {k} refers to {what} as {path} but downloads nothing to that path; '
-                f'input_files={_files(bt.rec[k].kw.get("input_files"))}')
+            if stale_ok and any(d == path + '.txt' for s, d in ins):
+                bad('command-path-stale-after-add_extension', f'job {k} refers to {what} as {path} (the path at the time '
+                    f'of its command) but the file is downloaded to {path}.txt because add_extension was called later')
+            else:
+                bad('consumer-path-not-downloaded', f'job {k} refers to {what} as {path} but downloads nothing to that '
+                    f'path; input_files={ins}')
             return None
         if len(set(srcs)) > 1:
-            bad('two-downloads-to-one-local-path', f'job {k} downloads {sorted(set(srcs))} to the same local path {path}')
+            g = same_basename_group(srcs)
+            if g:
+                bad('input-group-members-with-same-basename-share-local-path', f'job {k} downloads the members '
+                    f'{sorted(set(srcs))} of one input group to the same local path {path}')
+            else:
+                bad('distinct-resources-share-local-path', f'job {k} downloads {sorted(set(srcs))} to the same local path {path}')
             return None
         return srcs[0]
 
     def upload_dests(p, path):
         return [d for s, d in _files(bt.rec[p].kw.get('output_files')) if s == path]
+
+    def not_uploaded(p, ppath):
+        outs_p = _files(bt.rec[p].kw.get('output_files'))
+        if specs[p].get('out') in ('ext-post', 'ext-last') and any(s_ == ppath + '.txt' for s_, d in outs_p):
+            bad('command-path-stale-after-add_extension', f'job {p} writes its output to {ppath} (the path at the time of '
+                f'its command) but uploads {ppath}.txt because add_extension was called later; output_files={outs_p}')
+        else:
+            bad('producer-path-not-uploaded', f'job {p} writes its output to {ppath} (per its command) but uploads {outs_p}')
 
     def producer_member_paths(p):
         """local paths of producer p's output files, as its own command names them: {form: path}"""
@@ -547,7 +579,7 @@ def judge(prog, bt):
                     # ---------- produced by another job
                     res = ('job', src, member)
                     note(res, local=cpath)
-                    dl = download_source(k, cpath, f'{member} of job {src}')
+                    dl = download_source(k, cpath, f'{member} of job {src}', stale_ok=specs[src].get('out') == 'ext-last')
                     prod = bt.rec[src]
                     if specs[src]['type'] == 'B':
                         pm = producer_member_paths(src)
@@ -557,18 +589,22 @@ def judge(prog, bt):
                         note(res, local=ppath)
                         ups = upload_dests(src, ppath)
                         if not ups:
-                            bad('producer-path-not-uploaded', f'job {src} writes its output to {ppath} (per its command) '
-                                f'but uploads {_files(prod.kw.get("output_files"))}')
+                            not_uploaded(src, ppath)
                             continue
                     else:
                         # python producer: find the upload whose destination the consumer downloads
-                        ups = [d for s, d in _files(prod.kw.get('output_files'))]
-                        cand = [s for s, d in _files(prod.kw.get('output_files')) if d == dl]
+                        outs_p = _files(prod.kw.get('output_files'))
+                        cand = {s_ for s_, d in outs_p if d == dl}
+                        ups = [d for s_, d in outs_p if s_ in cand]
                         pscript = prod.kw['command'][2].replace('${BATCH_TMPDIR}', tmp[src])
-                        for s in cand:
-                            note(res, local=s)
-                            if s not in pscript:
-                                bad('producer-path-not-uploaded', f'python job {src} uploads {s}, a path its script never writes')
+                        for s_ in sorted(cand):
+                            note(res, local=s_)
+                            if s_ not in pscript:
+                                bad('producer-path-not-uploaded', f'python job {src} uploads {s_}, a path its script never writes')
+                        if dl is not None and not cand:
+                            bad('upload-download-location-mismatch', f'job {k} downloads {member} of job {src} from {dl}; '
+                                f'job {src} uploads {outs_p}')
+                            continue
                     for d in ups:
                         if not d.startswith('gs://out/final/'):
                             note(res, remote=d)
@@ -622,8 +658,7 @@ def judge(prog, bt):
                 for member, ppath in pm.items():
                     note(('job', k, member), local=ppath)
                     if not upload_dests(k, ppath):
-                        bad('producer-path-not-uploaded', f'job {k} writes its output to {ppath} (per its command) but '
-                            f'uploads {_files(bt.rec[k].kw.get("output_files"))}')
+                        not_uploaded(k, ppath)
         elif specs[k]['type'] == 'B':
             pm = producer_member_paths(k)
             for member, ppath in (pm or {}).items():
@@ -632,9 +667,14 @@ def judge(prog, bt):
     # ---- distinct resources never share a path -------------------------------------------------------------
     seen = {}
     for res, paths in sorted(local_of.items(), key=repr):
-        for p in paths:
+        for p in sorted(paths):
             if p in seen and seen[p] != res:
-                bad('distinct-resources-share-local-path', f'{seen[p]} and {res} both live at {p}')
+                o = seen[p]
+                if o[0] == res[0] == 'input' and o[1] == res[1] and same_basename_group(list(INPUT_GROUPS.get(o[1], {}).values())):
+                    bad('input-group-members-with-same-basename-share-local-path',
+                        f'members {o[2]} and {res[2]} of input group {o[1]} both live at {p}')
+                else:
+                    bad('distinct-resources-share-local-path', f'{o} and {res} both live at {p}')
             seen.setdefault(p, res)
     seen = {}
     for res, paths in sorted(remote_written.items(), key=repr):
@@ -646,8 +686,15 @@ def judge(prog, bt):
 
 
 def run_case(prog):
-    bt = build_and_run(prog)
-    return judge(prog, bt)
+    try:
+        bt = build_and_run(prog)
+    except _env()['BatchException'] as e:
+        # the DSL refused the program (e.g. a repaired add_extension that refuses late calls): nothing was
+        # submitted, so there is nothing to judge
+        return [], {'reads': 0, 'quoted': 0, 'group_reads': 0, 'py_reads': 0, 'staged': 0, 'rejected': 1, 'why': str(e)}
+    viol, stats = judge(prog, bt)
+    stats['rejected'] = 0
+    return viol, stats
 
 
 # ----------------------------------------------------------------------------------------------
@@ -711,25 +758,32 @@ def plan(tier):
     ]
 
 
+_OUT_RANK = {o: i for i, o in enumerate(('none', 'file', 'res', 'str', 'group', 'ext-pre', 'ext-post', 'ext-last'))}
+
+
 def prog_key(prog):
-    return (len(prog['jobs']), sum(len(j['reads']) for j in prog['jobs']), repr(prog))
+    jobs = prog['jobs']
+    return (len(jobs), sum(len(j['reads']) for j in jobs), sum(bool(j['wout']) for j in jobs), bool(prog.get('rev')),
+            tuple((j['type'], _OUT_RANK[j['out']]) for j in jobs), repr(prog))
 
 
 def _work(item):
     tier, pi, shard, nshards = item
     n, kinds, inps, revs, _ = plan(tier)[pi]
     res = {'evals': 0, 'viol': {}, 'reads': 0, 'quoted': 0, 'group_reads': 0, 'py_reads': 0, 'staged': 0,
-           'with_read': 0, 'samples': []}
+           'with_read': 0, 'rejected': 0, 'samples': []}
     for i, prog in enumerate(programs(n, kinds, inps, revs)):
         if i % nshards != shard:
             continue
         viol, stats = run_case(prog)
         res['evals'] += 1
-        for k in ('reads', 'quoted', 'group_reads', 'py_reads', 'staged'):
+        for k in ('reads', 'quoted', 'group_reads', 'py_reads', 'staged', 'rejected'):
             res[k] += stats[k]
+        if stats['rejected']:
+            continue
         if any(isinstance(r[0], int) for j in prog['jobs'] for r in j['reads']):
             res['with_read'] += 1
-            if len(res['samples']) < 1 and not viol:
+            if len(res['samples']) < 1:
                 res['samples'].append(prog)
         for sig, msg in viol:
             old = res['viol'].get(sig)
@@ -747,7 +801,7 @@ def check(tier, seed, procs):
         ns = 1 if n == 1 else (16 if n == 2 else 64)
         items += [(tier, pi, s, ns) for s in range(ns)]
     rows = par.pmap(_work, par.rotate(items, seed), procs, chunksize=1)
-    keys = ('evals', 'reads', 'quoted', 'group_reads', 'py_reads', 'staged', 'with_read')
+    keys = ('evals', 'reads', 'quoted', 'group_reads', 'py_reads', 'staged', 'with_read', 'rejected')
     tot = {k: sum(r[k] for r in rows) for k in keys}
     best = {}
     for r in rows:
@@ -770,10 +824,11 @@ def check(tier, seed, procs):
                   'input group whole/member, input group whose members share a base name) and <=1 reference (every valid form: '
                   'file, whole group, member, PythonResult, as_str file) from each earlier job',
         'resource_reads_checked': tot['reads'],
-        'reads_whose_replacement_needed_quoting': tot['quoted'],
+        'bash_reads_of_a_path_that_needs_quoting': tot['quoted'],
         'whole_group_reads': tot['group_reads'],
         'reads_by_python_jobs': tot['py_reads'],
         'local_inputs_staged_by_client': tot['staged'],
+        'programs_refused_by_the_dsl': tot['rejected'],
     }
     vac = None
     for k in ('reads', 'quoted', 'group_reads', 'py_reads', 'staged', 'with_read'):
